@@ -419,10 +419,15 @@ impl Pool {
         if fixed {
             return Pool { a: 97, b: 98, c: 99 };
         }
-        let a = match rng.below(5) {
+        // the three letters straddle a boundary of some narrower character type, or are random
+        let a = match rng.below(9) {
             0 => 0,
             1 => MAX_CHAR - 2,
             2 => 0xFFFE,
+            3 => 0x7E,   // 0x7E 0x7F 0x80
+            4 => 0xFE,   // 0xFE 0xFF 0x100
+            5 => 0xD7FE, // .. 0xD7FF 0xD800
+            6 => 0xDFFE, // .. 0xDFFF 0xE000
             _ => rng.range(1, MAX_CHAR - 3),
         };
         Pool { a, b: a + 1, c: a + 2 }
